@@ -40,6 +40,8 @@ var c10Shapes = []c10Shape{
 	{"unimpl-only", []security.AuthMethod{mPWD}, []security.AuthMethod{mPWD}, false, false},
 	{"token-only", []security.AuthMethod{mTOK}, []security.AuthMethod{mTOK}, false, true},
 	{"token-no-token", []security.AuthMethod{mTOK}, []security.AuthMethod{mTOK}, true, false},
+	{"ssl-only", []security.AuthMethod{security.AuthSSL}, []security.AuthMethod{security.AuthSSL}, false, true},
+	{"ssl-then-ctb", []security.AuthMethod{security.AuthSSL, mCTB}, []security.AuthMethod{security.AuthSSL, mCTB}, false, true},
 }
 
 func lv(l security.SecurityLevel) string { return string(l)[:3] }
@@ -169,13 +171,13 @@ func c10Run(res *vlib.Result, ca, sa, ce, se security.SecurityLevel, sh c10Shape
 func C10Plan() *vlib.Plan {
 	p := &vlib.Plan{
 		Property: "C10", Level: "model_checking",
-		Rule:   "E-ENUM: full 4^4 matrix of (client auth, server auth, client enc, server enc) levels x method-list shapes (same, reversed, disjoint, empty either side, unimplemented first/only, token with/without a usable token) x {common cipher, none} x {command, auth-only}; each cell runs two real endpoints over an in-memory pipe with a passive frame recorder; cells with a command and a common cipher are also judged on the SECOND connection of a server that resolves the command's policy through ServerConfigForCommand returning one shared object. Oracle = decision table written from the property text (fail/succeed, authentication runs, encryption on, explicit denial) + agreement of both reports + ping/pong. state = policy cell outcome class; transitions = handshakes executed.",
-		Assume: []string{"CLAIMTOBE, TOKEN and the unimplemented PASSWORD stand for the method alphabet (SSL/KERBEROS/SCITOKENS cannot complete offline)"},
+		Rule:   "E-ENUM: full 4^4 matrix of (client auth, server auth, client enc, server enc) levels x method-list shapes (same, reversed, disjoint, empty either side, unimplemented first/only, token with/without a usable token, SSL only, SSL before CLAIMTOBE - TLS tunnelled through CEDAR messages with a throw-away CA) x {common cipher, none} x {command, auth-only}; each cell runs two real endpoints over an in-memory pipe with a passive frame recorder; cells with a command and a common cipher are also judged on the SECOND connection of a server that resolves the command's policy through ServerConfigForCommand returning one shared object. Oracle = decision table written from the property text (fail/succeed, authentication runs, encryption on, explicit denial) + agreement of both reports + ping/pong. state = policy cell outcome class; transitions = handshakes executed.",
+		Assume: []string{"CLAIMTOBE, TOKEN, SSL and the unimplemented PASSWORD stand for the method alphabet (KERBEROS/SCITOKENS need a KDC / an issuer)"},
 	}
 	p.Gen = func(tier string, yield func(vlib.Case)) {
 		shapes := c10Shapes
 		if tier != "thorough" {
-			shapes = []c10Shape{c10Shapes[0], c10Shapes[2], c10Shapes[3], c10Shapes[6], c10Shapes[7]}
+			shapes = []c10Shape{c10Shapes[0], c10Shapes[2], c10Shapes[3], c10Shapes[6], c10Shapes[7], c10Shapes[10]}
 		}
 		names := []string{}
 		for _, s := range shapes {
